@@ -47,10 +47,24 @@ def gen(rng, tier):
             pn = [(u - kv[0]) / (kv[-1] - kv[0]) for (p, kv, kn), u in zip(S.dirs(d), ps)]
             line = "%s %s %s" % (OPS[d['kind']], S.args(dn), " ".join(fr(x) for x in pn))
             out.append(Case('knot-range', line, dict(shape=d, params=ps, nparams=pn)))
+    # derivatives under every configuration (binary span search x alternative evaluator), non-square nets
+    for _ in range(25 if tier == 'quick' else 300):
+        if rng.random() < .5:
+            d = S.rand_curve(rng, rational=False, maxp=4)
+            u = S.rand_params(rng, d)[0]
+            order = rng.randint(1, d['p'] + 1)
+            line = "cders %s %s %d" % (S.args(d), fr(u), order)
+            out.append(Case('ders-config', line, dict(shape=d, params=[u], order=order, alt=rng.random() < .6, bin=rng.random() < .5)))
+        else:
+            d = S.rand_surface(rng, rational=False, maxp=3, max_interior=2)
+            u, v = S.rand_params(rng, d)
+            order = rng.randint(1, 3)
+            alt = rng.random() < .6
+            line = "sders 0 %d %s %s %s %d" % (1 if alt else 0, S.args(d)[2:], fr(u), fr(v), order)
+            out.append(Case('ders-config', line, dict(shape=d, params=[u, v], order=order, alt=alt, bin=rng.random() < .5)))
     out.append(Case('cache-size', None, dict(seed=rng.randint(1, 10 ** 6))))
     out.append(Case('num-procs', None, dict(seed=rng.randint(1, 10 ** 6), scenario='tessellate')))
-    if tier != 'quick':
-        out.append(Case('num-procs', None, dict(seed=rng.randint(1, 10 ** 6), scenario='voxelize')))
+    out.append(Case('num-procs', None, dict(seed=rng.randint(1, 10 ** 6), scenario='voxelize')))
     return out
 
 
@@ -59,9 +73,24 @@ def _eval(o, d, ps):
     return o.evaluate_single(qp[0] if d['kind'] == 'curve' else tuple(qp))
 
 
+def _ders(c):
+    from geomdl import helpers, evaluators
+    d = c.data['shape']
+    kw = dict(find_span_func=helpers.find_span_binsearch) if c.data['bin'] else {}
+    o = S.build(d, **kw)
+    if c.data['alt']:
+        o.evaluator = (evaluators.CurveEvaluator2 if d['kind'] == 'curve' else evaluators.SurfaceEvaluator2)(**kw)
+    qp = [q(x) for x in c.data['params']]
+    return o.derivatives(*qp, c.data['order'])
+
+
 def impl(c):
     from geomdl import helpers
     d = c.data['shape']
+    if c.kind == 'ders-config':
+        from core import show_pts2
+        r = _ders(c)
+        return show_pts(r) if d['kind'] == 'curve' else show_pts2(r)
     if c.kind == 'span-func':
         o = S.build(d, find_span_func=helpers.find_span_binsearch)
         return show_list(_eval(o, d, c.data['params']))
@@ -108,6 +137,25 @@ def oracle(c):
             return "normalize_kv=True made a valid evaluation raise %s" % type(e).__name__
         if list(got) != want:
             return "normalised knots give %s, original range %s" % (show_list(got), show_list(want))
+        return None
+    if c.kind == 'ders-config':
+        d = c.data['shape']
+        base = S.build(d)
+        qp = [q(x) for x in c.data['params']]
+        want = base.derivatives(*qp, c.data['order'])
+        try:
+            got = _ders(c)
+        except Exception as e:
+            return "derivatives raise %s under span=%s evaluator=%s" % (type(e).__name__, 'binary' if c.data['bin'] else 'linear', 'alt' if c.data['alt'] else 'default')
+        order = c.data['order']
+        if d['kind'] == 'curve':
+            if [list(x) for x in got] != [list(x) for x in want]:
+                return "curve derivatives differ between configurations"
+        else:
+            for k in range(order + 1):
+                for l in range(order + 1 - k):     # the alternative evaluator fills k + l <= order
+                    if list(got[k][l]) != list(want[k][l]):
+                        return "surface derivative [%d][%d] differs between configurations (span=%s, evaluator=%s)" % (k, l, 'binary' if c.data['bin'] else 'linear', 'alt' if c.data['alt'] else 'default')
         return None
     if c.kind == 'cache-size':
         ref, err = _probe('knotops', c.data['seed'], {})
